@@ -66,6 +66,8 @@ def cases(tier, seed):
         n = int(rs.randint(3, 21 if thorough else 11))
         out.append({'f': 'makerandCIJdegreesfixed', 'n': n, 'p': float(rs.choice([.1, .2, .3, .5])),
                     'gs': int(rs.randint(1 << 30)), 'nspy': 4 if thorough else 2, 'rs': seed + t})
+    for n in (1, 2, 5):   # boundary: the empty digraph is a graphical pair too
+        out.append({'f': 'makerandCIJdegreesfixed', 'n': n, 'p': 0.0, 'gs': 0, 'nspy': 1, 'rs': seed, 'empty': True})
     return out
 
 
@@ -82,7 +84,9 @@ def run(case, bct, REC):
         A = G.er(case['n'], case['p'], True, case['gs'])
         inv = A.sum(axis=0).astype(int)
         outv = A.sum(axis=1).astype(int)
-        if inv.sum() == 0:
+        if case.get('empty'):
+            inv, outv = np.zeros(case['n'], dtype=int), np.zeros(case['n'], dtype=int)
+        elif inv.sum() == 0:
             return
     for d in descrs:
         rng = rngmod.make_rng(d)
